@@ -25,6 +25,8 @@ REPO = os.environ.get("VERIF_REPO", "/repo")
 LIB = os.path.join(REPO, "ciderpress", "lib")
 SHIM = os.path.join(VERIF, "shim")
 BUILD = os.path.join(VERIF, "build")
+if REPO != "/repo":
+    BUILD = os.path.join(VERIF, "build", "alt-" + hashlib.sha1(os.path.abspath(REPO).encode()).hexdigest()[:10])
 PYSCF_DEPS = "/venv/lib/python3.12/site-packages/pyscf/lib/deps"
 
 MOD_CIDER = [
@@ -98,6 +100,16 @@ def build(variant="plain", quiet=True):
         cflags = v["cflags"] + ["-fPIC", "-std=gnu99", "-w"]
         inc = ["-I" + os.path.join(LIB, "fft_wrapper"), "-I" + os.path.join(LIB, "mod_cider"),
                "-I" + LIB, "-I" + SHIM]
+        cfg = os.path.join(LIB, "fft_wrapper", "cider_fft_config.h")
+        if not os.path.exists(cfg):
+            # the header CMake generates from the tracked template config.h.in (absent in a bare checkout):
+            # no MPI, FFTW back end (the only one that exists in this sandbox, realised by shim/vfftw.c)
+            tmpl = open(os.path.join(LIB, "fft_wrapper", "config.h.in")).read()
+            tmpl = tmpl.replace("#cmakedefine01 HAVE_MPI", "#define HAVE_MPI 0")
+            tmpl = tmpl.replace("#cmakedefine FFT_BACKEND @FFT_BACKEND@", "#define FFT_BACKEND 2")
+            with open(os.path.join(obj, "cider_fft_config.h"), "w") as fh:
+                fh.write(tmpl)
+            inc.append("-I" + obj)
         jobs = []
         for f in MOD_CIDER:
             jobs.append((os.path.join(LIB, "mod_cider", f), os.path.join(obj, "m_" + f[:-2] + ".o"), []))
